@@ -108,6 +108,9 @@ XMLByte* HexBin::decodeToXMLByte(const XMLCh*          const   hexData
     
     XMLByte temp1, temp2;
     for( int i = 0; i<decodeLength; i++ ) {
+        // characters beyond the table cannot be hex digits (and must not index it)
+        if (hexData[i*2] >= BASELENGTH || hexData[i*2+1] >= BASELENGTH)
+            return 0;
         temp1 = hexNumberTable[hexData[i*2]];
         if (temp1 == (XMLByte) -1)
             return 0;
